@@ -17,5 +17,5 @@ INIT Init
 NEXT Next
 VIEW view
 INVARIANTS TypeOK NoUnderflow FloorBound AgeBound RetainedIntact StateReadsCorrect BelowFloorClean
-PROPERTIES Resumable FloorMonotone
+PROPERTIES Resumable FloorMonotone RestartIsNoOp
 CHECK_DEADLOCK FALSE
